@@ -1004,3 +1004,105 @@ Proof.
       apply (proj1 HQ k Hk).
 Qed.
 End Depth.
+
+(* ================================================================ the tag chunks are the tree events *)
+(* justifies [open_at]: the i-th tag chunk of the stream is the i-th event of the tree *)
+Lemma tags_rev_flat evs : tags_rev evs = flat_map event_tag (rev evs).
+Proof.
+  induction evs as [|e evs IH]; [reflexivity|]. cbn [tags_rev rev]. rewrite flat_map_app, IH. cbn [flat_map]. rewrite app_nil_r. reflexivity.
+Qed.
+Lemma chunk_tags_of e : chunk_tags (chunk_of e) = event_tag e.
+Proof. destruct e; reflexivity. Qed.
+Lemma tags_chunks st : flat_map chunk_tags (fchunks st) = tags st.
+Proof.
+  unfold fchunks, chunks, tags, chron. rewrite tags_rev_flat. induction (rev (os_events (fs_out st))) as [|e l IH]; [reflexivity|].
+  cbn [map flat_map]. rewrite IH, chunk_tags_of. reflexivity.
+Qed.
+
+Lemma tbl_good_clean t : tbl_good t = true -> tbl_clean t = true.
+Proof.
+  destruct t as [l|]; [|reflexivity]. cbn [tbl_good tbl_clean]. rewrite !forallb_forall. intros H x Hx.
+  apply (proj1 (good_parts _ (H x Hx))).
+Qed.
+Lemma cfg_depth_clean c : cfg_depth c = true -> cfg_clean c = true.
+Proof.
+  unfold cfg_depth, cfg_clean. intros H.
+  apply andb_true_iff in H. destruct H as [H H5]. apply andb_true_iff in H. destruct H as [H H4].
+  rewrite H, (tbl_good_clean _ H4), (tbl_good_clean _ H5). reflexivity.
+Qed.
+Lemma toks_good_nolt v : forallb tok_good v = true -> toks_nolt v = true.
+Proof. intros H. apply (proj1 (toks_good_split v H)). Qed.
+Lemma attr_good_clean a : attr_good a = true -> attr_clean a = true.
+Proof.
+  unfold attr_good, attr_clean. intros H. apply andb_true_iff in H. destruct H as [H1 H2].
+  rewrite (proj1 (good_parts _ H1)). destruct (aa_value a) as [v|]; [|reflexivity]. cbn [oval_nolt]. apply toks_good_nolt, H2.
+Qed.
+Lemma depth_node_clean c : forall n, depth_node c n = true -> node_clean n = true.
+Proof.
+  induction n as [nm v rp at_ ch sc IH] using anode_ind'. intros H.
+  destruct (node_parts c (ANode nm v rp at_ ch sc) H) as [Hg [Hs [_ [Hv [Ha [_ Hk]]]]]].
+  cbn [an_name an_value an_attrs an_children] in *. apply good_parts in Hg. destruct Hg as [G1 G2].
+  cbn [node_clean]. rewrite G1, G2, Hs, Hv. cbn [andb].
+  apply andb_true_iff. split.
+  - rewrite forallb_forall in *. intros a Ha'. apply attr_good_clean, Ha, Ha'.
+  - rewrite forallb_forall in *. rewrite Forall_forall in IH. intros x Hx. apply IH; [exact Hx|apply Hk, Hx].
+Qed.
+
+Theorem tag_chunks_are_events c forest :
+  cfg_depth c = true -> depth_dom c forest = true ->
+  flat_map chunk_tags (fchunks (html_format c forest)) = map erase (flat_map (tree_events c) forest).
+Proof.
+  intros Hc Hd. rewrite tags_chunks. apply format_events_all; [apply cfg_depth_clean, Hc|].
+  unfold depth_dom in Hd. rewrite forallb_forall in *. intros n Hn. apply depth_node_clean with (c := c), Hd, Hn.
+Qed.
+
+Theorem indent_is_depth_full_lemma c forest :
+  oc_format_skip c = [] -> cfg_depth c = true -> depth_dom c forest = true ->
+  lines_indented (oc_fmt c) (flat_map (tree_events c) forest) (fchunks (html_format c forest)).
+Proof. intros Hs Hc Hd. exact (format_lines_indented c _ Hs Hc forest eq_refl Hd). Qed.
+
+(* ================================================================ the excluded shapes deviate on the model *)
+Definition dx_cfg : oconfig :=
+  mkOconfig (mkOfmt [9] [] [10])%N [] [] [] true false [] [] 3 false [] s_html [[115;112;97;110]]%N
+            false [] [] [] false None None.
+(* <div><p>a\nb ${1} c</p> with a child <x> of p: the text has a line break and is written around the child *)
+Definition dx_multiline : list anode :=
+  [ANode (Some [100;105;118]%N) None None None
+     [ANode (Some [112]%N) (Some [VStr [97;10;98;32]%N; VField 1 []; VStr [32;99]%N]) None None
+        [ANode (Some [120]%N) None None None [] false] false] false].
+(* <p>hi ${1} there</p> with a block child <div>: the rest of the text follows the child's closing line break *)
+Definition dx_after : list anode :=
+  [ANode (Some [112]%N) (Some [VStr [104;105;32]%N; VField 1 []; VStr [32;116;104;101;114;101]%N]) None None
+     [ANode (Some [100;105;118]%N) None None None [] false] false].
+
+Lemma depth_multiline_field_text_refuted :
+  oc_format_skip dx_cfg = [] /\ cfg_depth dx_cfg = true /\ depth_dom dx_cfg dx_multiline = false /\
+  ~ lines_indented (oc_fmt dx_cfg) (flat_map (tree_events dx_cfg) dx_multiline) (fchunks (html_format dx_cfg dx_multiline)).
+Proof.
+  split; [reflexivity|]. split; [reflexivity|]. split; [reflexivity|]. intros H.
+  match type of H with lines_indented _ _ ?X =>
+    let X' := eval vm_compute in X in
+    specialize (H (firstn 7 X') match nth_error X' 7 with Some (CT _ s) => s | _ => [] end (skipn 8 X'))
+  end.
+  match type of H with ?A -> _ => assert (G : A) by (vm_compute; reflexivity); specialize (H G); clear G end.
+  destruct H as [_ [k [more [Hi Hk]]]]. destruct Hi as [Hi|[Hi0 Hi]].
+  - cbv [skipn] in Hi. unfold indent_chunk in Hi. injection Hi as Hi1 Hi2. subst more. vm_compute in Hk. subst k.
+    vm_compute in Hi1. discriminate.
+  - cbv [skipn] in Hi. subst more. subst k. vm_compute in Hk. discriminate.
+Qed.
+
+Lemma depth_text_after_children_refuted :
+  oc_format_skip dx_cfg = [] /\ cfg_depth dx_cfg = true /\ depth_dom dx_cfg dx_after = false /\
+  ~ lines_indented (oc_fmt dx_cfg) (flat_map (tree_events dx_cfg) dx_after) (fchunks (html_format dx_cfg dx_after)).
+Proof.
+  split; [reflexivity|]. split; [reflexivity|]. split; [reflexivity|]. intros H.
+  match type of H with lines_indented _ _ ?X =>
+    let X' := eval vm_compute in X in
+    specialize (H (firstn 9 X') match nth_error X' 9 with Some (CT _ s) => s | _ => [] end (skipn 10 X'))
+  end.
+  match type of H with ?A -> _ => assert (G : A) by (vm_compute; reflexivity); specialize (H G); clear G end.
+  destruct H as [_ [k [more [Hi Hk]]]]. destruct Hi as [Hi|[Hi0 Hi]].
+  - cbv [skipn] in Hi. unfold indent_chunk in Hi. injection Hi as Hi1 Hi2. subst more. vm_compute in Hk. subst k.
+    vm_compute in Hi1. discriminate.
+  - cbv [skipn] in Hi. subst more. subst k. vm_compute in Hk. discriminate.
+Qed.
